@@ -78,3 +78,64 @@ package iavl
 //@   ensures [policy] err == nil ==> unbox(r, "*store/iavl.Store").numRecent == pruning.keepRecent && unbox(r, "*store/iavl.Store").storeEvery == pruning.keepEvery
 //@   ensures [typed] err == nil ==> dyntype(r) == typeid("*store/iavl.Store")
 //@   ensures [failed] err != nil ==> !ifacenotnil(r)
+
+// ---------------------------------------------------------------- queries (C14, the part within reach)
+// Observer ghosts for reads of the tree: tq.calls counts versioned reads, tq.ver / tq.key hold the version and
+// key of the last one, tq.val what it returned. tq.iterver is the version a store iterator reads:
+// -1 = the working tree (latest committed version plus uncommitted writes).
+
+//@ ghost tq.calls Int
+//@ ghost tq.ver Int
+//@ ghost tq.key $[]byte
+//@ ghost tq.val $[]byte
+//@ ghost tq.iterver Int
+
+//@ iface func (t Tree) Version() (r int64)
+//@   mode heap
+//@   ensures r == tree.cur
+//@ iface func (t Tree) VersionExists(version int64) (r bool)
+//@   mode heap
+//@   ensures r == tree.saved[version]
+//@ iface func (t Tree) GetVersioned(key []byte, version int64) (idx int64, value []byte)
+//@   mode heap
+//@   modifies tq.calls, tq.ver, tq.key, tq.val
+//@   ensures tq.calls == old(tq.calls) + 1 && tq.ver == version && tq.key == key && tq.val == value
+//@ iface func (t Tree) GetVersionedWithProof(key []byte, version int64) (value []byte, proof *iavl.RangeProof, err error)
+//@   mode heap
+//@   modifies tq.calls, tq.ver, tq.key, tq.val
+//@   ensures tq.calls == old(tq.calls) + 1 && tq.ver == version && tq.key == key && tq.val == value
+
+//@ func (st *Store) VersionExists(version int64) (r bool)
+//@   props C14
+//@   ensures r == tree.saved[version]
+
+// the height a query is answered at: the requested one, or for 0 the latest version minus one when that is
+// loadable, else the latest
+//@ func getHeight(tr Tree, req abci.RequestQuery) (r int64)
+//@   props C14
+//@   requires tree.cur >= 0
+//@   ensures r == ite(req.Height != 0, req.Height, ite(tree.saved[tree.cur - 1], tree.cur - 1, tree.cur))
+
+// ASSUMED (goroutine-driven iterator: outside the subset): a store iterator walks the store's own tree, i.e. the
+// working tree, whatever was committed when
+//@ assumed func (st *Store) Iterator(start, end []byte) (r types.Iterator)
+//@   mode heap
+//@   modifies tq.iterver
+//@   ensures tq.iterver == 0 - 1 && ifacenotnil(r)
+
+// C14: a key query is answered from exactly the version it is labelled with - one versioned read of the tree at
+// res.Height with the requested key, its value passed through; a version that is not loadable (pruned, future)
+// yields no read, no value and no proof. A subspace query must likewise read version res.Height: it does NOT
+// (known finding F15: it iterates the working tree).
+//@ func (st *Store) Query(req abci.RequestQuery) (res abci.ResponseQuery)
+//@   props C14
+//@   may_panic
+//@   requires tree.cur >= 0
+// the response, proof objects and the KVPair list are freshly built or library-owned: no frame is claimed
+//@   modifies everything
+//@   loop 1 invariant tq.iterver == 0 - 1 && tq.calls == old(tq.calls)
+//@   ensures [height] len(req.Data) > 0 && (req.Path == "/key" || req.Path == "/subspace") ==> res.Height == ite(req.Height != 0, req.Height, ite(tree.saved[tree.cur - 1], tree.cur - 1, tree.cur))
+//@   ensures [key-at-height] len(req.Data) > 0 && req.Path == "/key" && tree.saved[res.Height] ==> tq.calls == old(tq.calls) + 1 && tq.ver == res.Height && tq.key == req.Data
+//@   ensures [value] len(req.Data) > 0 && req.Path == "/key" && tree.saved[res.Height] ==> (res.Value == tq.val || len(res.Value) == 0) && (!req.Prove ==> res.Value == tq.val)
+//@   ensures [unloadable] len(req.Data) > 0 && req.Path == "/key" && !tree.saved[res.Height] ==> tq.calls == old(tq.calls) && len(res.Value) == 0 && isnil(res.Proof)
+//@   ensures [subspace-at-height@C14] len(req.Data) > 0 && req.Path == "/subspace" ==> tq.iterver == res.Height
